@@ -125,7 +125,21 @@ def check_cont(case):
 
     def path(**extra):
         return svg.Path("M0,0 L10,5 L-4,8 z M20,20 L26,23", **extra)
-    if cont == "use":
+    if cont == "use_group":
+        import io
+        xml = ('<svg xmlns="http://www.w3.org/2000/svg" xmlns:xlink="http://www.w3.org/1999/xlink" width="500" height="500">'
+               '<defs><g id="g"><rect x="1" y="2" width="30" height="40" stroke-width="%r"%s/>'
+               '<path d="M0,0 L10,5 L-4,8 z M20,20 L26,23" stroke="red" stroke-width="2"/></g></defs>'
+               '<use xlink:href="#g" x="10" y="20" transform="scale(%r)"/></svg>') % (
+                   swf, "" if stroke == "unset" else ' stroke="%s"' % stroke, kf)
+        try:
+            doc = svg.SVG.parse(io.StringIO(xml), reify=False)
+            obj = [e for e in doc.elements() if isinstance(e, svg.Use)][0]
+        except engine.CaseTimeout:
+            raise
+        except Exception as e:
+            return [{"clause": "Raises", "detail": "parse of %s raised %s" % (xml, type(e).__name__)}]
+    elif cont == "use":
         import io
         xml = ('<svg xmlns="http://www.w3.org/2000/svg" xmlns:xlink="http://www.w3.org/1999/xlink" width="500" height="500">'
                '<defs><rect id="r" x="1" y="2" width="30" height="40" stroke-width="%r"%s/></defs>'
